@@ -1518,3 +1518,145 @@ func ruleDevTypeKind(c *Ctx) []Obligation {
 	}
 	return obs
 }
+
+// ---------------------------------------------------------------- LEX.QUEUE (seeded C02-w10-1)
+
+func init() {
+	register(&Rule{Name: "LEX.QUEUE", Props: []string{"C02", "C01"}, Floor: 3,
+		Doc: "no token is dropped: the token queue is written with a non-blocking send and drained one token per state call, so a state function emits a bounded number of tokens — none inside a loop, none through a direct call of another state function — and that number is below the queue's capacity",
+		Run: ruleLexQueue})
+}
+
+func ruleLexQueue(c *Ctx) []Obligation {
+	const R = "LEX.QUEUE"
+	m, why := c.lexModel()
+	if m == nil {
+		return []Obligation{undecided(R, "lexer model", "-", why)}
+	}
+	fItems := FieldVar(m.lexer, "items")
+	if fItems == nil {
+		return []Obligation{undecided(R, "token queue", "-", "lexer.items not found")}
+	}
+	// the senders: lexer functions that send on the queue; blocking ones need no bound
+	senders := map[*ssa.Function]bool{}
+	nonBlocking := false
+	for _, fn := range c.Funcs {
+		if !c.isRepoFn(fn) {
+			continue
+		}
+		eachInstr(fn, func(in ssa.Instruction) {
+			switch x := in.(type) {
+			case *ssa.Send:
+				if _, f, _ := loadedField(x.Chan); f == fItems {
+					senders[fn] = true
+				}
+			case *ssa.Select:
+				for _, st := range x.States {
+					if _, f, _ := loadedField(st.Chan); f == fItems && st.Dir == types.SendOnly {
+						senders[fn] = true
+						if !x.Blocking {
+							nonBlocking = true
+						}
+					}
+				}
+			}
+		})
+	}
+	if len(senders) == 0 {
+		return []Obligation{undecided(R, "token queue", "-", "no send on lexer.items found")}
+	}
+	if !nonBlocking {
+		return []Obligation{ok(R, "the token queue is written with blocking sends", "-", "a full queue makes the lexer wait; nothing is dropped")}
+	}
+	// functions that (transitively, through non-state repo functions) emit
+	emits := map[*ssa.Function]bool{}
+	for s := range senders {
+		emits[s] = true
+	}
+	isState := map[*ssa.Function]bool{}
+	for _, s := range m.states {
+		isState[s] = true
+	}
+	for changed := true; changed; {
+		changed = false
+		for _, fn := range c.Funcs {
+			if emits[fn] || isState[fn] || !c.isRepoFn(fn) {
+				continue
+			}
+			eachInstr(fn, func(in ssa.Instruction) {
+				if ci, isC := in.(ssa.CallInstruction); isC {
+					if cal := ci.Common().StaticCallee(); cal != nil && emits[cal] && !emits[fn] {
+						emits[fn] = true
+						changed = true
+					}
+				}
+			})
+		}
+	}
+	// the error reporter also emits (an error token), but it counts its calls and stops the lexer by clearing the
+	// input when the count reaches the queue's capacity: its calls are bounded by that counter, wherever they sit
+	fErrcnt := FieldVar(m.lexer, "errcnt")
+	reporter := map[*ssa.Function]bool{}
+	if fErrcnt != nil {
+		for fn := range emits {
+			for f := range c.Reach([]*ssa.Function{fn}, nil) {
+				if c.isRepoFn(f) && len(storesToField(f, fErrcnt)) > 0 {
+					reporter[fn] = true
+				}
+			}
+		}
+	}
+	// the capacity of the queue: make(chan *token, K) stored into lexer.items
+	var capK int64 = -1
+	for _, fn := range c.Funcs {
+		for _, st := range storesToField(fn, fItems) {
+			if mk, isM := st.Val.(*ssa.MakeChan); isM {
+				if k, isK := constInt(mk.Size); isK {
+					capK = k
+				}
+			}
+		}
+	}
+	var obs []Obligation
+	for _, s := range m.states {
+		con := fmt.Sprintf("%s: emits a bounded number of tokens per call, below the queue's capacity", c.FnName(s))
+		n := 0
+		bad1 := ""
+		eachInstr(s, func(in ssa.Instruction) {
+			ci, isC := in.(ssa.CallInstruction)
+			if !isC {
+				return
+			}
+			cal := ci.Common().StaticCallee()
+			if cal == nil {
+				return
+			}
+			if isState[cal] {
+				if bad1 == "" {
+					bad1 = "calls the state function " + c.FnName(cal) + " directly instead of returning it (" + c.InstrPos(in) + "): the tokens of both accumulate before the queue is drained"
+				}
+				return
+			}
+			if !emits[cal] || reporter[cal] {
+				return
+			}
+			n++
+			if loopHeaderOf(in.Block()) != nil && bad1 == "" {
+				bad1 = "emits inside a loop (" + c.InstrPos(in) + "): the number of tokens per call is not bounded"
+			}
+		})
+		switch {
+		case bad1 != "":
+			obs = append(obs, bad(R, con, c.Pos(s.Pos()), bad1+"; the send is non-blocking, so what does not fit into the queue is dropped silently — a well-formed text is rejected (\"missing closing brace\") or mis-parsed"))
+		case capK >= 0 && int64(n) > capK:
+			obs = append(obs, bad(R, con, c.Pos(s.Pos()), fmt.Sprintf("%d emitting calls on a path set, queue capacity %d", n, capK)))
+		default:
+			o := ok(R, con, c.Pos(s.Pos()), fmt.Sprintf("%d emitting call(s), none in a loop, no direct call of a state; capacity %d", n, capK))
+			if n == 0 {
+				o.Trivial = true
+			}
+			obs = append(obs, o)
+		}
+	}
+	return obs
+}
